@@ -167,12 +167,8 @@ public:
   void add_energy(cvm::real e) override { bias_energy += e; energies_added.push_back(e); }
 
   // scripted-forces callback (scriptedColvarForces on): unset => same answer as the base class
+  // (run_force_callback() below uses it when set, then the C12 `forcescript` list)
   std::function<int()> force_callback;
-  int run_force_callback() override
-  {
-    if (force_callback) return force_callback();
-    return COLVARS_NOT_IMPLEMENTED;
-  }
 
   int check_atom_id(int atom_number) override
   {
@@ -307,6 +303,7 @@ public:
   // (C12) the scripted-force task: what a `calc_colvar_forces` Tcl procedure would do with `cv colvar <v> addforce <f>`
   int run_force_callback() override
   {
+    if (force_callback) return force_callback();
     if (!eng->script_forces.size()) return COLVARS_NOT_IMPLEMENTED;
     for (auto &p : eng->script_forces) {
       colvar *c = cvm::colvar_by_name(p.first);
